@@ -49,6 +49,7 @@ type Engine struct {
 
 	modsets map[string]*modset
 	traceSigs map[string][]types.Type
+	scanningKey string
 
 	timeoutQuick int
 }
